@@ -80,9 +80,55 @@ func c15CaseAt(base uint64, chain []*vhdr.Header, subj, nw int, R uint64, forged
 		subj, nw, R, b2i(forged), failH, res, joinU(reqs), joinU(pend), local, stHead)
 }
 
+// c15HeadPath: the candidate arrives through the Head-request path. The subjective head (store 1..subj) is not recent, so
+// Syncer.Head asks the network; the exchange answers the way p2p.Exchange does - the head verified against the trusted head,
+// paired with the soft failure when it is beyond the trust range - and the Syncer has to bifurcate with the trusted getter.
+func c15HeadPath(chain []*vhdr.Header, subj, nw int, R uint64, forged bool) {
+	ctx := context.Background()
+	vhdr.TrustRange.Store(R)
+	defer vhdr.TrustRange.Store(0)
+	st := newStoreWith(chain, 1, subj)
+	defer st.Stop(ctx) //nolint:errcheck
+	g := &scriptGetter{chain: chain, failH: map[uint64]bool{}, budget: 20000}
+	cand := chain[nw-1]
+	if forged {
+		c := *cand
+		cand = &vhdr.Header{Chain: c.Chain, H: c.H, T: c.T, Prev: c.Prev, Salt: 99, Forged: true}
+	}
+	g.headFn = func(trusted *vhdr.Header) (*vhdr.Header, error) {
+		if trusted == nil {
+			return cand, nil
+		}
+		if err := header.Verify(trusted, cand); err != nil {
+			var ve *header.VerifyError
+			if errors.As(err, &ve) && ve.SoftFailure {
+				return cand, err
+			}
+			return nil, header.ErrNotFound // a hard failure: the exchange drops the answer
+		}
+		return cand, nil
+	}
+	s, _ := newSyncer(g, st, hsync.WithBlockTime(time.Second), hsync.WithTrustingPeriod(1000*time.Hour), hsync.WithRecencyThreshold(time.Nanosecond))
+	h, err := s.Head(ctx)
+	res := "err"
+	if err == nil && h != nil {
+		res = utoa(h.H)
+	}
+	reqs := heightsOf(g.take(), "H:")
+	local := uint64(0)
+	if lh, e := s.VerifLocalHead(ctx); e == nil {
+		local = lh.H
+	}
+	emit("C15 kind=headpath subj=%d new=%d R=%d forged=%d => head=%s requests=%s local=%d", subj, nw, R, b2i(forged), res, joinU(reqs), local)
+}
+
 func runC15(tier string, r *rng) {
 	n := 260
 	chain := vhdr.Chain("A", n, time.Now().Add(-2*time.Hour).UnixNano(), 1e9, 0)
+	for _, c := range [][3]int{{3, 4, 0}, {3, 12, 0}, {3, 12, 2}, {3, 27, 5}, {10, 74, 7}, {20, 120, 4}} {
+		c15HeadPath(chain, c[0], c[1], uint64(c[2]), false)
+		c15HeadPath(chain, c[0], c[1], uint64(c[2]), true)
+	}
 	// exhaustive small grid: distance × trust range × forged, plus a getter failure at every requested height
 	maxD := 24
 	if tier == "thorough" {
